@@ -65,7 +65,7 @@ ASSUMPTIONS = ["reference denotation vmc/gen_map.py:ref_map and axis provenance 
                "load_intermediate=False: no pipeline output may be a coordinate on another dimension (from the parameter's docstring, not "
                "from the property statement; own violation kind 'intermediate-coordinate-without-load_intermediate')",
                "sequential map run; correctness of the map results themselves is C01's business (values are still compared here)"]
-BUDGET = {"quick": 75.0, "thorough": 900.0}
+BUDGET = {"quick": 100.0, "thorough": 900.0}
 
 
 # ------------------------------------------------------------------------------------------------
